@@ -1,2 +1,2 @@
 -- Property files of work group I1 (import UF.Props.Cxx lines go here).
-import UF.Driver.Ops.GroupI1
+import UF.Props.C11Compose
